@@ -122,6 +122,52 @@ def check_corpus(corpus, fails, counts):
             expg = dict((k, sorted(v)) for k, v in expg.items())
             if g != expg:
                 fail("C14-group-overlap", "groups(tags, overlap) = %r expected %r" % (g, expg))
+            # range facets: buckets [start + k*gap, start + (k+1)*gap) while the bucket start is below `end`; a value outside
+            # every bucket groups under None (incl. a value equal to an `end` that lies on a bucket boundary); query facets
+            if not nn:
+                for (st, en, gap, hard) in ((0, 6, 2, False), (1, 5, 2, False), (-4, 5, 3, True), (2, 3, 1, False), (0, 5, 5, False)):
+                    import signal
+
+                    def _alarm(signum, frame):
+                        raise RuntimeError("did not terminate within 20 s")
+                    signal.signal(signal.SIGALRM, _alarm)
+                    signal.alarm(20)
+                    try:
+                        rf = sorting.RangeFacet("num", st, en, gap, hardend=hard)
+                        r = s.search(q, limit=None, groupedby={"rng": rf})
+                    except RuntimeError as e:
+                        fail("C14-group-range", "RangeFacet(num, %d, %d, %d, hardend=%s): %s" % (st, en, gap, hard, e))
+                        break
+                    finally:
+                        signal.alarm(0)
+                    g = dict((k, sorted(d2k[d] for d in v)) for k, v in r.groups("rng").items())
+                    buckets = []
+                    c = st
+                    while c < en:
+                        e = min(en, c + gap) if hard else c + gap
+                        buckets.append((c, e))
+                        c = e
+                    expg = {}
+                    for i in hits:
+                        v = docs[i]["num"]
+                        key = next((b for b in buckets if b[0] <= v < b[1]), None)
+                        expg.setdefault(key, []).append(i)
+                    expg = dict((k, sorted(v)) for k, v in expg.items())
+                    if g != expg:
+                        fail("C14-group-range", "RangeFacet(num, %d, %d, %d, hardend=%s) groups %r expected %r" % (st, en, gap, hard, g, expg))
+                        break
+                qf = sorting.QueryFacet({"low": query.NumericRange("num", None, 2), "bravo": query.Term("txt", "bravo")})
+                r = s.search(q, limit=None, groupedby={"qf": qf})
+                g = dict((k, sorted(d2k[d] for d in v)) for k, v in r.groups("qf").items())
+                expg = {}
+                for i in hits:
+                    ks_ = [name for name, ok in (("low", docs[i]["num"] <= 2), ("bravo", docs[i]["txt"] == "bravo")) if ok]
+                    # (non-overlapping: the first matching query in the facet's own order decides)
+                    expg.setdefault("__any__" if ks_ else None, []).append(i)
+                got_any = sorted(sum((v for k, v in g.items() if k is not None), []))
+                if sorted(expg.get("__any__", [])) != got_any or sorted(expg.get(None, [])) != sorted(g.get(None, [])):
+                    fail("C14-group-query", "QueryFacet groups %r: documents in some group %r expected %r, in None %r expected %r"
+                         % (g, got_any, sorted(expg.get("__any__", [])), sorted(g.get(None, [])), sorted(expg.get(None, []))))
             r = s.search(q, limit=2, groupedby="num")
             g = dict((k, sorted(d2k[d] for d in v)) for k, v in r.groups("num").items())
             expg = {}
